@@ -1531,12 +1531,261 @@ def run_ext(inp):
     raise ValueError(k)
 
 
+# ============================================================================================= extension xt07: Trotter consistency
+# (theorems `product_formula_deriv`, `product_formula_second_order`, `trotter_converges`, `ising_step_consistent`, …,
+#  `ising_trotter_converges`, …, `circuit_unitary_is_power` of Props/C07.lean; lemma files Lemmas/TrotterLimit|Matrix|Pauli.lean)
+#
+# kind `trotter-deriv` — for every circuit builder (Ising, Heisenberg, 2-D Ising, 2-D Heisenberg, 1-D and 2-D Fermi–Hubbard; small
+# sizes) the REAL builder's one-step circuit is turned into its unitary U(dt) with qiskit `Operator` for dt, dt/2, dt/4 and
+#   value tie   trotter-deriv-step-*  the gate list of that very one-step circuit vs the model's step (driver request `circ … 1`): the
+#               unitary that is differentiated below is the unitary of the gate list the theorems talk about
+#   oracle      trotter-deriv-*       the derivative the theorem states is the derivative the code has:
+#               (a) spin builders: Σ (θ_k/2)·P_k over the rotation gates of the real step = dt·H  (`…_step_generators` + `genSum_eq_ham`
+#                   on the real gate list; H = MPO.ising / MPO.heisenberg .to_matrix() where a builder of the same name exists, an
+#                   explicit Kronecker sum otherwise);
+#               (b) ‖(U(dt) − 1)/dt + iH‖ halves with dt (ratio ≥ 1.6) and (c) its twice Richardson-extrapolated limit is −iH;
+#               (d) the real N-step circuit is the N-th power of the real one-step circuit (`circuit_unitary_is_power`) and the
+#                   N-step error ‖U(T/N)^N − exp(−iHT)‖ shrinks ∝ 1/N or faster (ratio ≥ 1.6): the global claim `…_trotter_converges`
+#   spec tie    the explicit constants of the theorems on the real unitaries (they follow from the gate conventions alone):
+#               ‖U(dt) − 1 + iG‖ ≤ e^s − 1 − s,  ‖U(dt) − exp(−iG)‖ ≤ s²e^s,  ‖U(T/N)^N − exp(−iNG)‖ ≤ N·s²e^s  with G = Σ c_k P_k, s = Σ|c_k|
+
+XT_KINDS = {"trotterderiv"}
+XTSPEC = {"n": 0, "bad": 0, "worst": 0.0, "detail": ""}
+XT_OBS = {"gensum": 0.0, "limit": 0.0, "power": 0.0, "ratio_min": 99.0, "gratio_min": 99.0}
+ROT_AXES = {"rx": "X", "ry": "Y", "rz": "Z", "rxx": "XX", "ryy": "YY", "rzz": "ZZ"}
+
+
+def gen_xt(rng, tier):
+    quick = tier == "quick"
+
+    def sub():
+        return rng.randrange(1 << 30)
+
+    for _rep in range(2 if quick else 4):
+        for b in ("ising", "heis"):
+            for L in ([1, 2, 3, 4, 5, 6] if quick else [1, 2, 3, 4, 5, 6, 7]):
+                for per in (False, True):
+                    yield {"kind": "trotterderiv", "builder": b, "L": L, "per": per, "sub": sub()}
+        for b in ("ising2d", "heis2d"):
+            for (R, C) in ([(1, 2), (2, 2), (2, 3), (3, 2), (1, 4)] if quick else [(1, 1), (1, 2), (1, 4), (2, 2), (2, 3), (3, 2), (4, 2), (3, 3)]):
+                yield {"kind": "trotterderiv", "builder": b, "R": R, "C": C, "sub": sub()}
+    for L in (1, 2, 3):
+        yield {"kind": "trotterderiv", "builder": "fh1d", "L": L, "sub": sub()}
+    for (lx, ly) in [(1, 1), (2, 1), (1, 2), (3, 1), (2, 2)]:
+        yield {"kind": "trotterderiv", "builder": "fh2d", "Lx": lx, "Ly": ly, "sub": sub()}
+
+
+def real_rotation_gens(circ):
+    """[(pauli dict, c)] with gate = exp(-i c P) for every gate of the real circuit, in circuit order; None if the circuit contains a
+    gate that is not a Pauli rotation (Fermi–Hubbard builders)"""
+    out = []
+    for inst in circ.data:
+        op = inst.operation
+        if op.name == "barrier":
+            continue
+        if op.name not in ROT_AXES:
+            return None
+        qs = [circ.find_bit(q).index for q in inst.qubits]
+        out.append(({q: ROT_AXES[op.name][k] for k, q in enumerate(qs)}, float(op.params[0]) / 2))
+    return out
+
+
+def xt_setup(inp, rng):
+    """(one_step(dt) -> real circuit, n_step(T, N) -> real circuit, dense documented H in qiskit order, request builder, what, sig)"""
+    b = inp["builder"]
+    if b in ("ising", "heis"):
+        L, per = inp["L"], inp["per"]
+        bonds = chain_bonds(L, per)
+        if L == 2 and per:
+            bonds = [(0, 1), (0, 1)]  # both builders count the wrap bond of a 2-chain twice
+        if b == "ising":
+            J, g = coup(rng), coup(rng)
+            H = spin_h(L, bonds, {"Z": J}, {"X": g})
+            one = lambda dt: cl.create_ising_circuit(L, J, g, dt, 1, periodic=per)  # noqa: E731
+            many = lambda T, N: cl.create_ising_circuit(L, J, g, T / N, N, periodic=per)  # noqa: E731
+            req = lambda dt: f"circ ising {L} {int(per)} 1 | {ib.fracs([J, g, dt])}"  # noqa: E731
+            mpo = None if (L == 1 and per) else MPO.ising(L, J, g, bc="periodic" if per else "open")
+        else:
+            Jx, Jy, Jz = coup(rng), coup(rng), coup(rng)
+            h = 0.0 if rng.random() < 0.25 else coup(rng)
+            H = spin_h(L, bonds, {"X": Jx, "Y": Jy, "Z": Jz}, {"Z": h})
+            one = lambda dt: cl.create_heisenberg_circuit(L, Jx, Jy, Jz, h, dt, 1, periodic=per)  # noqa: E731
+            many = lambda T, N: cl.create_heisenberg_circuit(L, Jx, Jy, Jz, h, T / N, N, periodic=per)  # noqa: E731
+            req = lambda dt: f"circ heis {L} {int(per)} 1 | {ib.fracs([Jx, Jy, Jz, h, dt])}"  # noqa: E731
+            mpo = None if (L == 1 and per) else MPO.heisenberg(L, Jx, Jy, Jz, h, bc="periodic" if per else "open")
+        hsrc = "explicit Kronecker sum"
+        if mpo is not None:  # the Hamiltonian builder of the same name IS the documented Hamiltonian (site 0 leftmost -> qiskit order)
+            hm = np.asarray(mpo.to_matrix(), dtype=complex)
+            perm = np.array([int(format(k, f"0{L}b")[::-1], 2) for k in range(2**L)])
+            Hm = hm[np.ix_(perm, perm)]
+            dd = float(np.linalg.norm(Hm - H))
+            if dd > 1e-9 * (1 + float(np.linalg.norm(H))):
+                return None, f"{b}(L={L}, periodic={per}): MPO builder of the same name differs from the documented Hamiltonian by {dd:.2e}"
+            H = Hm
+            hsrc = "MPO." + ("ising" if b == "ising" else "heisenberg") + ".to_matrix()"
+        return (one, many, H, req, f"{b}(L={L}, periodic={per})", f"{b}:{L}:{per}", hsrc), None
+    if b in ("ising2d", "heis2d"):
+        R, C = inp["R"], inp["C"]
+        nq = R * C
+        bonds = grid_bonds(R, C)
+        if b == "ising2d":
+            J, g = coup(rng), coup(rng)
+            H = spin_h(nq, bonds, {"Z": J}, {"X": g})
+            one = lambda dt: cl.create_2d_ising_circuit(R, C, J, g, dt, 1)  # noqa: E731
+            many = lambda T, N: cl.create_2d_ising_circuit(R, C, J, g, T / N, N)  # noqa: E731
+            req = lambda dt: f"circ ising2d {R} {C} 1 | {ib.fracs([J, g, dt])}"  # noqa: E731
+        else:
+            Jx, Jy, Jz = coup(rng), coup(rng), coup(rng)
+            h = 0.0 if rng.random() < 0.25 else coup(rng)
+            H = spin_h(nq, bonds, {"X": Jx, "Y": Jy, "Z": Jz}, {"Z": h})
+            one = lambda dt: cl.create_2d_heisenberg_circuit(R, C, Jx, Jy, Jz, h, dt, 1)  # noqa: E731
+            many = lambda T, N: cl.create_2d_heisenberg_circuit(R, C, Jx, Jy, Jz, h, T / N, N)  # noqa: E731
+            req = lambda dt: f"circ heis2d {R} {C} 1 | {ib.fracs([Jx, Jy, Jz, h, dt])}"  # noqa: E731
+        return (one, many, H, req, f"{b}({R}x{C})", f"{b}:{R}x{C}", "explicit Kronecker sum"), None
+    u, t, mu = coup(rng), coup(rng), coup(rng)
+    split = rng.random() < 0.5  # N sub-steps either as num_trotter_steps = N, timesteps = 1 or the other way round
+    if b == "fh1d":
+        L = inp["L"]
+        H = fh_h_1d(L, u, t, mu)
+        one = lambda dt: cl.create_1d_fermi_hubbard_circuit(L, u, t, mu, 1, dt, 1)  # noqa: E731
+        many = (lambda T, N: cl.create_1d_fermi_hubbard_circuit(L, u, t, mu, N, T, 1)) if split else \
+            (lambda T, N: cl.create_1d_fermi_hubbard_circuit(L, u, t, mu, 1, T / N, N))  # noqa: E731
+        req = lambda dt: f"circ fh1d {L} 1 1 | {ib.fracs([u, t, mu, dt])}"  # noqa: E731
+        return (one, many, H, req, f"fermi_hubbard_1d(L={L})", f"fh1d:{L}:{split}", "explicit Kronecker sum"), None
+    Lx, Ly = inp["Lx"], inp["Ly"]
+    H, _ = fh_h_2d(Lx, Ly, u, t, mu)
+    one = lambda dt: cl.create_2d_fermi_hubbard_circuit(Lx, Ly, u, t, mu, 1, dt, 1)  # noqa: E731
+    many = (lambda T, N: cl.create_2d_fermi_hubbard_circuit(Lx, Ly, u, t, mu, N, T, 1)) if split else \
+        (lambda T, N: cl.create_2d_fermi_hubbard_circuit(Lx, Ly, u, t, mu, 1, T / N, N))  # noqa: E731
+    req = lambda dt: f"circ fh2d {Lx} {Ly} 1 1 | {ib.fracs([u, t, mu, dt])}"  # noqa: E731
+    return (one, many, H, req, f"fermi_hubbard_2d(Lx={Lx}, Ly={Ly})", f"fh2d:{Lx}x{Ly}:{split}", "explicit Kronecker sum"), None
+
+
+def xt_spec(name, value, bound):
+    """a consequence of the theorems and the gate conventions alone: `value ≤ bound`"""
+    XTSPEC["n"] += 1
+    slack = value - bound * (1 + 1e-9) - 1e-11
+    XTSPEC["worst"] = max(XTSPEC["worst"], slack)
+    if slack > 0:
+        XTSPEC["bad"] += 1
+        XTSPEC["detail"] = f"{name}: {value:.6e} exceeds the theorem's bound {bound:.6e}"
+
+
+def run_trotter_deriv(inp):
+    rng = random.Random(inp["sub"])
+    b = inp["builder"]
+    setup, bad = xt_setup(inp, rng)
+    if setup is None:
+        return {"req": None, "impl": None, "oracle": ok([bad]), "kind": "trotter-deriv-" + b, "sig": f"tderiv:{b}:mpo"}
+    one, many, H, req, what, sig, hsrc = setup
+    dim = H.shape[0]
+    eye = np.eye(dim, dtype=complex)
+    hn = float(np.linalg.norm(H, 2))
+    dt0 = 0.05 / max(1.0, hn)
+    probs = []
+    # ---- the step whose unitary is differentiated is the model's step (value tie) ----
+    c0 = one(dt0)
+    tie = {"req": req(dt0), "impl": gate_tokens(c0), "oracle": None, "kind": "trotter-deriv-step-" + b, "sig": f"tderivstep:{sig}",
+           "nontrivial": len(c0.data) > 1}
+    # ---- (a) generators of the real step sum to dt * H ----
+    gens = real_rotation_gens(c0)
+    if b in ("ising", "heis", "ising2d", "heis2d") and gens is None:
+        probs.append(f"{what}: the step contains a gate that is not a Pauli rotation")
+    nq = c0.num_qubits
+    G = None
+    if gens is not None:
+        G = np.zeros((dim, dim), dtype=complex)
+        for ops, c in gens:
+            G += c * pauli_le(ops, nq)
+        dg = float(np.linalg.norm(G - dt0 * H, 2))
+        XT_OBS["gensum"] = max(XT_OBS["gensum"], dg / (dt0 * (1 + hn)))
+        if dg > 1e-9 * dt0 * (1 + hn):
+            probs.append(f"{what}: the generators of one circuit step (dt={dt0:.4g}) sum to an operator that differs from dt*H by "
+                         f"{dg:.3e} (relative {dg / (dt0 * (1 + hn)):.3e}); H from {hsrc}")
+    # ---- (b), (c) derivative of the real one-step unitary at dt = 0 ----
+    Ds, errs, U0 = [], [], None
+    for k in range(3):
+        dt = dt0 / 2**k
+        U = Operator(c0 if k == 0 else one(dt)).data
+        if k == 0:
+            U0 = U
+        D = (U - eye) / dt
+        Ds.append(D)
+        errs.append(float(np.linalg.norm(D + 1j * H, 2)))
+    detail = f"|(U(dt)-1)/dt + iH| = {errs[0]:.3e} {errs[1]:.3e} {errs[2]:.3e} at dt = {dt0:.4g}, /2, /4"
+    if hn < 1e-12:
+        if max(errs) > 1e-9:
+            probs.append(f"{what}: H = 0 but the step is not the identity ({detail})")
+    else:
+        r1, r2 = errs[0] / max(errs[1], 1e-300), errs[1] / max(errs[2], 1e-300)
+        XT_OBS["ratio_min"] = min(XT_OBS["ratio_min"], r1, r2)
+        detail += f" ratios {r1:.3f} {r2:.3f}"
+        if r1 < 1.6 or r2 < 1.6:
+            probs.append(f"{what}: (U(dt) - 1)/dt does not approach -iH of the documented Hamiltonian as dt is halved: {detail}")
+        R1a, R1b = 2 * Ds[1] - Ds[0], 2 * Ds[2] - Ds[1]
+        lim = (4 * R1b - R1a) / 3
+        dl = float(np.linalg.norm(lim + 1j * H, 2)) / (1 + hn)
+        XT_OBS["limit"] = max(XT_OBS["limit"], dl)
+        detail += f" limit-dev {dl:.2e}"
+        if dl > 2e-3:
+            probs.append(f"{what}: the derivative of the one-step unitary at dt = 0 (Richardson limit of the three step sizes) differs "
+                         f"from -iH by {dl:.3e} (relative to 1 + |H|); H from {hsrc}")
+    # ---- spec: the theorems' explicit constants on the real unitary ----
+    if G is not None:
+        s = float(sum(abs(c) for _, c in gens))
+        xt_spec(f"{what} |U - 1 + iG|", float(np.linalg.norm(U0 - eye + 1j * G, 2)), math.exp(s) - 1 - s)
+        xt_spec(f"{what} |U - exp(-iG)|", float(np.linalg.norm(U0 - sla.expm(-1j * G), 2)), s * s * math.exp(s))
+    # ---- (d) N steps: power of the step, error ∝ 1/N ----
+    T = rng.uniform(0.3, 0.6)
+    n0 = 4
+    Uex = sla.expm(-1j * H * T)
+    gerrs = []
+    for N in (n0, 2 * n0, 4 * n0):
+        c1 = one(T / N)
+        U1 = Operator(c1).data
+        UN = np.linalg.matrix_power(U1, N)
+        if N == n0:
+            Ureal = Operator(many(T, N)).data
+            dp = float(np.linalg.norm(Ureal - UN, 2))
+            XT_OBS["power"] = max(XT_OBS["power"], dp)
+            if dp > 1e-9:
+                probs.append(f"{what}: the circuit of {N} steps is not the {N}-th power of its one-step circuit (differs by {dp:.3e})")
+            g1 = real_rotation_gens(c1)
+            if g1 is not None:
+                s1 = float(sum(abs(c) for _, c in g1))
+                G1 = np.zeros((dim, dim), dtype=complex)
+                for ops, c in g1:
+                    G1 += c * pauli_le(ops, nq)
+                xt_spec(f"{what} |U^N - exp(-iNG)|", float(np.linalg.norm(Ureal - sla.expm(-1j * N * G1), 2)), N * s1 * s1 * math.exp(s1))
+        gerrs.append(float(np.linalg.norm(UN - Uex, 2)))
+    detail += f"; N-step errors {gerrs[0]:.2e} {gerrs[1]:.2e} {gerrs[2]:.2e} (T={T:.3f}, N={n0},{2 * n0},{4 * n0})"
+    if gerrs[0] < 1e-9:  # commuting terms: exact at every step count
+        if max(gerrs) > 1e-8:
+            probs.append(f"{what}: exact at {n0} steps but error {max(gerrs):.2e} after refinement")
+    else:
+        q1, q2 = gerrs[0] / max(gerrs[1], 1e-300), gerrs[1] / max(gerrs[2], 1e-300)
+        XT_OBS["gratio_min"] = min(XT_OBS["gratio_min"], q1, q2)
+        detail += f" ratios {q1:.2f} {q2:.2f}"
+        if gerrs[2] > 1e-9 and (q1 < 1.6 or q2 < 1.6):
+            probs.append(f"{what}: the N-step error does not shrink like 1/N: {gerrs[0]:.3e} {gerrs[1]:.3e} {gerrs[2]:.3e}, ratios {q1:.2f} {q2:.2f}")
+        if gerrs[2] > 0.5:
+            probs.append(f"{what}: the N-step error stays large: {gerrs[2]:.3e} at N = {4 * n0}")
+    orc = {"req": None, "impl": None, "oracle": ok(probs, detail), "kind": "trotter-deriv-" + b, "sig": f"tderiv:{sig}"}
+    return [tie, orc]
+
+
 def gen_all(rng, tier):
     yield from gen(rng, tier)
     yield from gen_ext(rng, tier)
+    yield from gen_xt(rng, tier)
 
 
 def run_all(inp):
+    if inp["kind"] in XT_KINDS:
+        res = run_trotter_deriv(inp)
+        if "corpus_file" in inp:
+            res = [dict(r, kind="corpus:" + str(r.get("kind", inp["kind"]))) for r in (res if isinstance(res, list) else [res])]
+        return res
     if inp["kind"] in EXT_KINDS:
         res = run_ext(inp)
         if "corpus_file" in inp:
@@ -1548,7 +1797,11 @@ def run_all(inp):
 def spec_all():
     return spec() + [{"name": "LAPACK SVD on every matrix from_matrix / _compress_one_sweep decompose: u diag(s) vh = x, uᴴu = 1, vh vhᴴ = 1, "
                               "s sorted non-negative", "ok": SVDSPEC["bad"] == 0, "n": SVDSPEC["n"], "worst_residual": SVDSPEC["worst"],
-                      "detail": SVDSPEC["detail"]}]
+                      "detail": SVDSPEC["detail"]},
+                     {"name": "explicit constants of product_formula_second_order / trotter_converges on the real one-step and N-step unitaries of "
+                              "the spin builders (|U - 1 + iG| <= e^s - 1 - s, |U - exp(-iG)| <= s^2 e^s, |U^N - exp(-iNG)| <= N s^2 e^s; G, s from the "
+                              "real gate list); observed on this run: " + ", ".join(f"{k}={v:.3g}" for k, v in XT_OBS.items()),
+                      "ok": XTSPEC["bad"] == 0, "n": XTSPEC["n"], "worst_residual": XTSPEC["worst"], "detail": XTSPEC["detail"]}]
 
 
 if __name__ == "__main__":
@@ -1558,9 +1811,14 @@ if __name__ == "__main__":
                  "coefficients, long range, invalid) -> pre-compression bond dims, tensor entries, path sums; hand-written tables; "
                  "distinct = distinct (builder, size, bc, step/shape) signatures; extension: to_matrix / to_sparse_matrix entries of random "
                  "rational MPOs (d = 2, 3, mixed bonds, zero blocks) vs contraction loop, bond path sum at the index digits and Kronecker "
-                 "accumulation; from_matrix and one compression sweep replayed from the captured SVD factors (every SVD input, every tensor)",
+                 "accumulation; from_matrix and one compression sweep replayed from the captured SVD factors (every SVD input, every tensor); "
+                 "extension xt07 (trotter-deriv): the real one-step circuit of all six builders (chains L=1..5 x both bc, grids <= 6 sites, "
+                 "Hubbard <= 4 sites) -> gate list vs model step, generators summing to dt*H, derivative of the one-step unitary at dt=0 "
+                 "against -iH (MPO.ising / MPO.heisenberg .to_matrix() or explicit Kronecker sum), N-step circuit = power of the step, "
+                 "N-step error ~ 1/N",
             trusted_base=["qiskit gate conventions (spec-tied each run)", "numpy/scipy dense linear algebra and qiskit Operator in the oracles",
-                          "Trotter convergence itself (analytic limit) is measured by step halving, not proved"],
+                          "Trotter convergence is a theorem for the four spin builders (ising_trotter_converges, …); for the two "
+                          "Fermi–Hubbard builders the analytic limit is measured (step halving, derivative at dt = 0), not proved"],
             assumptions=["parameters handed to the model are the binary64 values the builders received, as exact rationals",
                          "±pi/2 of the basis-change rotations is compared symbolically"],
             spec=spec_all)
